@@ -252,6 +252,17 @@ class SimExecutor:
         return f
 
     def _work(self):
+        init = getattr(self.sim, "worker_init", None)
+        if init is not None:
+            init()
+        try:
+            self._work_loop()
+        finally:
+            done = getattr(self.sim, "worker_exit", None)
+            if done is not None:
+                done()
+
+    def _work_loop(self):
         sim = self.sim
         while True:
             while not self.queue:
